@@ -255,8 +255,203 @@ Section Safe.
       split.
       { intros u Hu. unfold view. cbn. destruct (Nat.eqb_spec u t); [congruence|reflexivity]. }
       unfold view at 1. cbn [views set_view set_pfx]. rewrite Nat.eqb_refl. rewrite Hv. cbn [set_ph ph ka ko kpre kit kkey kid kidk].
-      apply safe_ret. split; [repeat split; auto|]. exact HID.
+      cbn. rewrite Nat.eqb_refl. cbn. split; [repeat split; auto|]. exact HID.
     - exists A. split; [eapply Inv_trace; exact HI|]. split; [apply frame_refl|]. rewrite Hv. apply safe_ret.
       split; [repeat split; auto|exact HID].
   Qed.
+
+  Notation QI := (fun (_ : out) (l' : L) => ph l' = PIdle).
+
+  Lemma itm_data s : sbits s = 0 -> sptr s <> 0 -> itm s = sptr s.
+  Proof.
+    intros H1 H2. unfold itm. rewrite H1. destruct (Nat.eqb_spec (sptr s) 0); [congruence|reflexivity].
+  Qed.
+
+  (** ** insert / update loop *)
+  Lemma safe_upd_loop t is_update allow g0 k id sf : id <> 0 -> forall fuel p l,
+    posP (hash k) p l -> idP k id l ->
+    safe t (upd_loop abits W hs fuel sf is_update allow t g0 k id p) l QI.
+  Proof.
+    intros Hid. induction fuel as [|fuel IH]; intros p l HP HID; cbn [upd_loop].
+    - apply safe_ret. apply HP.
+    - apply Conc.safe_bind. eapply Conc.safe_weaken; [|eapply safe_traverse with (h:=hash k) (k:=k) (id:=id); eauto].
+      intros [[p' v]|] l1 H1; [|apply safe_ret; exact H1]. destruct H1 as (HP1 & HID1 & Hb).
+      apply Conc.safe_bind. eapply Conc.safe_weaken; [|eapply safe_protect_arr with (h:=hash k) (k:=k) (id:=id); eauto].
+      intros [v'|] l2 H2; [|apply safe_ret; exact H2]. destruct H2 as (HP2 & HID2 & K1 & K2).
+      destruct (slot_eqb (vslot v') (vslot v)) eqn:E; cbn [negb].
+      2:{ apply IH; assumption. }
+      apply slot_eqb_eq in E.
+      destruct (Nat.eqb_spec (sptr (vslot v)) 0) as [Hz|Hnz]; cbn [negb].
+      + (* empty slot *)
+        destruct allow; [|apply safe_ret; apply HP2].
+        assert (vslot v = snull) as Hsn by (destruct (vslot v) as [a b]; cbn in *; subst; reflexivity).
+        eapply safe_data_cas with (k:=k) (id:=id); [exact HP2|reflexivity|right; auto|].
+        intros c. destruct (vok c).
+        * apply safe_cnt. apply safe_ret. apply HP2.
+        * apply IH; assumption.
+      + destruct (N.eqb (hash (vkey v')) (hash k)).
+        * destruct is_update; [|apply safe_ret; apply HP2].
+          eapply safe_data_cas with (k:=k) (id:=id); [exact HP2|exact Hb|right; auto|].
+          intros c. destruct (vok c).
+          -- apply safe_retire. apply safe_ret. apply HP2.
+          -- apply IH; assumption.
+        * destruct allow; [|apply safe_ret; apply HP2].
+          destruct (Nat.ltb (poff p') W); [|apply safe_ret; apply HP2].
+          apply Conc.safe_bind. eapply Conc.safe_weaken; [|eapply safe_expand with (h:=hash k) (k:=k) (id:=id); eauto].
+          -- intros _ l3 (HP3 & HID3). apply IH; assumption.
+          -- rewrite E. exact Hb.
+          -- rewrite E. exact Hnz.
+          -- rewrite K1. apply itm_data; rewrite E; assumption.
+          -- apply K2. rewrite itm_data; rewrite E; assumption.
+  Qed.
+
+  Lemma safe_erase_loop t g0 k sf : forall fuel p l,
+    posP (hash k) p l ->
+    safe t (erase_loop abits hs fuel sf t g0 k p) l QI.
+  Proof.
+    induction fuel as [|fuel IH]; intros p l HP; cbn [erase_loop].
+    - apply safe_ret. apply HP.
+    - assert (HID : idP (kidk l) (kid l) l) by (split; reflexivity).
+      apply Conc.safe_bind. eapply Conc.safe_weaken; [|eapply safe_traverse with (h:=hash k) (k:=kidk l) (id:=kid l); eauto].
+      intros [[p' v]|] l1 H1; [|apply safe_ret; exact H1]. destruct H1 as (HP1 & HID1 & Hb).
+      apply Conc.safe_bind. eapply Conc.safe_weaken; [|eapply safe_protect with (h:=hash k) (k:=kidk l) (id:=kid l); eauto].
+      intros [v'|] l2 H2; [|apply safe_ret; exact H2]. destruct H2 as (HP2 & HID2 & K1 & K2).
+      destruct (slot_eqb (vslot v') (vslot v)) eqn:E; cbn [negb].
+      2:{ apply IH; assumption. }
+      destruct (Nat.eqb_spec (sptr (vslot v)) 0) as [Hz|Hnz]; cbn [negb]; [apply safe_ret; apply HP2|].
+      destruct (N.eqb (hash (vkey v')) (hash k)); [|apply safe_ret; apply HP2].
+      eapply safe_data_cas with (k:=k) (id:=0); [exact HP2|exact Hb|left; reflexivity|].
+      intros c. destruct (vok c).
+      + apply safe_retire. apply safe_cnt. apply safe_ret. apply HP2.
+      + apply IH; assumption.
+  Qed.
+
+  Lemma safe_find_loop t g0 k sf : forall fuel p l,
+    posP (hash k) p l ->
+    safe t (find_loop abits hs fuel sf t g0 k p) l QI.
+  Proof.
+    induction fuel as [|fuel IH]; intros p l HP; cbn [find_loop].
+    - apply safe_ret. apply HP.
+    - assert (HID : idP (kidk l) (kid l) l) by (split; reflexivity).
+      apply Conc.safe_bind. eapply Conc.safe_weaken; [|eapply safe_traverse with (h:=hash k) (k:=kidk l) (id:=kid l); eauto].
+      intros [[p' v]|] l1 H1; [|apply safe_ret; exact H1]. destruct H1 as (HP1 & HID1 & Hb).
+      apply Conc.safe_bind. eapply Conc.safe_weaken; [|eapply safe_protect with (h:=hash k) (k:=kidk l) (id:=kid l); eauto].
+      intros [v'|] l2 H2; [|apply safe_ret; exact H2]. destruct H2 as (HP2 & HID2 & K1 & K2).
+      destruct (slot_eqb (vslot v') (vslot v)) eqn:E; cbn [negb].
+      2:{ apply IH; assumption. }
+      apply safe_ret. apply HP2.
+  Qed.
+
+  (** resetting what the thread knows to the head array at an [Emit] *)
+  Lemma safe_emit_head {R} t es (k : prog R) l (Q : R -> L -> Prop) :
+    safe t k (know l 0 0 0%N) Q -> safe t (Emit es k) l Q.
+  Proof.
+    intros H. cbn [Conc.safe]. intros g A tr HI Hv. unfold view in Hv.
+    exists (set_view A t (know (views A t) 0 0 0%N)).
+    split; [eapply Inv_trace; apply Inv_know; [exact HI|apply (i_head HI)]|]. split; [apply frame_set_view|].
+    rewrite view_set_same, Hv. exact H.
+  Qed.
+
+  Definition QI' : option bool -> L -> Prop := fun _ l => ph l = PIdle.
+
+  Lemma safe_give_up t l : ph l = PIdle -> safe t give_up l QI'.
+  Proof. intros H. unfold give_up. apply safe_emit. apply safe_ret. exact H. Qed.
+
+  Lemma safe_run_op fuel t o gs l : ph l = PIdle -> safe t (run_op hbits abits W hs fuel t o gs) l QI'.
+  Proof.
+    intros HPh. unfold run_op.
+    destruct o as [|code [|kz [|x r]]]; try (apply safe_ret; exact HPh).
+    set (k := Z.to_nat kz). set (c := Z.to_nat code).
+    destruct (Nat.eqb c 1 || Nat.eqb c 3 || Nat.eqb c 4).
+    - apply safe_emit_head.
+      (* the new item *)
+      cbn [Conc.safe]. intros g A tr HI Hv. cbn [a_gst_new fst snd vid]. unfold view in Hv.
+      set (id := S (nitem g)).
+      set (l1 := know_id (know l 0 0 0%N) id k).
+      exists (set_view A t l1). split.
+      { eapply Inv_trace. apply Inv_view_fields; try (rewrite Hv; reflexivity).
+        - apply (Inv_new_item Hh Ha). exact HI.
+        - cbn [l1 know_id know kit kkey kid kidk nitem ikey]. split.
+          + intros Hn. destruct (i_items HI t) as [K _]. rewrite Hv in K. cbn [know kit kkey] in K. destruct (K Hn) as [K1 K2].
+            split; [lia|]. unfold id. destruct (Nat.eqb_spec (kit l) (S (nitem g))); [lia|exact K2].
+          + intros _. split; [unfold id; lia|]. unfold id. rewrite Nat.eqb_refl. reflexivity. }
+      split; [apply frame_set_view|]. rewrite view_set_same. cbn beta.
+      intros g2 A2 tr2 HI2 Hv2. exists A2. split; [eapply Inv_trace; exact HI2|]. split; [apply frame_refl|]. rewrite Hv2.
+      cbn [a_sync a_nop fst snd]. apply Conc.safe_bind.
+      eapply Conc.safe_weaken; [|apply safe_upd_loop; [unfold id; lia| |split; reflexivity]].
+      + intros [[x y]|] l2 H2; [|apply safe_give_up; exact H2].
+        apply safe_nop. apply safe_nop. apply safe_emit. apply safe_ret. exact H2.
+      + unfold l1, know_id, know, posP, start; cbn. repeat split; auto. rewrite N.mod_1_r. reflexivity.
+    - destruct (Nat.eqb c 7).
+      + apply safe_emit_head. apply Conc.safe_bind.
+        eapply Conc.safe_weaken; [|apply safe_erase_loop; apply start_posP; exact HPh].
+        intros [[x y]|] l2 H2; [|apply safe_give_up; exact H2].
+        apply safe_nop. apply safe_emit. apply safe_ret. exact H2.
+      + apply safe_emit_head. apply Conc.safe_bind.
+        eapply Conc.safe_weaken; [|apply safe_find_loop; apply start_posP; exact HPh].
+        intros [[x y]|] l2 H2; [|apply safe_give_up; exact H2].
+        apply safe_nop. apply safe_emit. apply safe_ret. exact H2.
+  Qed.
+
+  Lemma safe_run_ops fuel t : forall os gs l, ph l = PIdle ->
+    safe t (run_ops hbits abits W hs fuel t os gs) l (fun _ l' => ph l' = PIdle).
+  Proof.
+    induction os as [|o r IH]; intros gs l H; cbn [run_ops]; [apply safe_ret; exact H|].
+    apply Conc.safe_bind. eapply Conc.safe_weaken; [|apply safe_run_op; exact H].
+    intros [gs'|] l' H'; [apply IH; exact H'|apply safe_ret; exact H'].
+  Qed.
+
+  Lemma safe_thread fuel t os l : ph l = PIdle ->
+    safe t (thread_prog hbits abits W hs fuel t os) l (@Conc.QTrue L).
+  Proof.
+    intros H. unfold thread_prog. apply safe_same; [reflexivity|]. intros g A tr HI Hv.
+    exists A. split; [exact HI|]. split; [apply frame_refl|]. rewrite Hv.
+    eapply Conc.safe_weaken; [|apply safe_run_ops; exact H]. intros; exact I.
+  Qed.
+
+  (** ** the initial configuration *)
+  Definition l0 : L := mkL PIdle 0 0 0%N 0 0 0 0.
+  Definition A0 : Aux := mkAux (fun a => if Nat.eqb a 0 then Some (0, 0%N) else None) (fun _ => l0).
+
+  Lemma Inv_init : Inv init A0 [].
+  Proof.
+    constructor; cbn [init A0 pfx views arr narr nitem ikey l0 ph ka ko kpre kit kid].
+    - split; [reflexivity|lia].
+    - intros a o pre H. destruct (Nat.eqb_spec a 0) as [->|]; [|discriminate]. inversion H; subst. repeat split; auto; try lia; try (cbn; lia).
+    - intros a o pre H Hn. destruct (Nat.eqb_spec a 0); [congruence|discriminate].
+    - intros pa po ppre i c _ H. discriminate.
+    - intros a o pre i p b _ H _ Hp. inversion H; congruence.
+    - intros a a' x H1 H2. destruct (Nat.eqb_spec a 0); destruct (Nat.eqb_spec a' 0); congruence.
+    - intros a i c b H Hb. inversion H; subst. lia.
+    - intros t a i p n [H|H]; discriminate.
+    - intros t a i p n H; discriminate.
+    - intros t a i p n H; discriminate.
+    - intros t t' a i p n a' i' p' n' _ [H|H]; discriminate.
+    - intros n _ _ j. reflexivity.
+    - intros t. reflexivity.
+    - intros t. split; intros H; congruence.
+  Qed.
+
+  Lemma nth_thread_progs fuel : forall ths t0 t p,
+    nth_error (thread_progs hbits abits W hs fuel t0 ths) t = Some p ->
+    exists os, p = thread_prog hbits abits W hs fuel (t0 + t) os.
+  Proof.
+    induction ths as [|os r IH]; intros t0 t p H; cbn [thread_progs] in H.
+    - destruct t; discriminate.
+    - destruct t as [|t]; cbn in H.
+      + inversion H; subst. exists os. rewrite Nat.add_0_r. reflexivity.
+      + destruct (IH (S t0) t p H) as (os' & ->). exists os'. f_equal. lia.
+  Qed.
+
+  Lemma init_ok fuel ths : Conc.cfg_ok view Inv (init_cfg hbits abits W hs fuel ths).
+  Proof.
+    exists A0. split; [exact Inv_init|].
+    intros t p Hp. cbn [init_cfg Conc.threads] in Hp. destruct (nth_thread_progs _ _ _ _ Hp) as (os & ->).
+    cbn [Nat.add]. apply safe_thread. reflexivity.
+  Qed.
+
+  (** the invariant holds in every reachable configuration, for every schedule *)
+  Theorem feldman_inv_reach fuel ths c :
+    Conc.reach (init_cfg hbits abits W hs fuel ths) c -> exists A, Inv (Conc.shared c) A (Conc.trace c).
+  Proof. intros Hr. eapply Conc.reach_Inv; [apply init_ok|exact Hr]. Qed.
 End Safe.
